@@ -10,7 +10,7 @@ import pcverif as V
 # property -> configuration
 PROPS = {
     "C18": dict(sub="logbuf", trace_spec="PCLogBufferTrace", model=("PCLogBuffer", "PCLogBuffer_mc.cfg"),
-                prefix=["C18_"], idfield="id",
+                prefix=["C18_"], idfield="id", replay="logbuf_replay",
                 assumptions=["lines are numbered in write order; deliveries and subscriptions are logged from inside the buffer's critical section (observer callbacks)",
                              "one writer goroutine concurrent with subscribers; range requests are issued in quiescent phases (GetLogRange takes no lock)",
                              "slack = 100 is read from the implementation constant; only 'not unboundedly more' (<= size+slack) is demanded"]),
@@ -98,6 +98,25 @@ def run(pid, tier, seed, replay=None):
         V.log("design model %s: %d distinct states, violated=%s" % (mcfg, m["distinct"], m["violated"]))
         models.append(m)
     paths = []
+    replay_res, replay_viol = None, 0
+    if cfg.get("replay"):
+        # second binding direction: behaviours of the design model stepped through the real code
+        replay_res = __import__(cfg["replay"]).run(pid, tier, seed, binary)
+        V.log("model->code replay: %d behaviours, %d visible steps, %d diverging behaviour(s)" % (
+            replay_res["behaviours"], replay_res["visible_steps_replayed"], len(replay_res["mismatches"])))
+        for n, mm in enumerate(replay_res["mismatches"][:10]):
+            d = os.path.join(V.WORKROOT, pid, "violations", "replay%03d" % n)
+            os.makedirs(d, exist_ok=True)
+            with open(os.path.join(d, "steps.ndjson"), "w") as f:
+                for line in open(replay_res["steps_file"]):
+                    if json.loads(line)["beh"] == mm["behaviour"]:
+                        f.write(line)
+            json.dump({"property": pid, "invariant": "C18_ModelBehaviourReproduced", "mismatch": mm,
+                       "rerun": "pcharness logbufreplay -in steps.ndjson -out observed.ndjson"},
+                      open(os.path.join(d, "violation.json"), "w"), indent=1)
+            print("VIOLATION property=%s replay=%s" % (pid, d))
+            V.log("   model behaviour %d step %d (%s): %s" % (mm["behaviour"], mm["step"], mm["action"], "; ".join(mm["diffs"])[:300]))
+        replay_viol = len(replay_res["mismatches"])
     for n, (inv, v) in enumerate(new[:20]):
         d = os.path.join(V.WORKROOT, pid, "violations", "%03d" % n)
         os.makedirs(d, exist_ok=True)
@@ -127,12 +146,15 @@ def run(pid, tier, seed, replay=None):
         "exhaustive": bool(cfg.get("exhaustive", False)),
         "rule": cfg.get("rule", "records produced by the real functions; each record evaluated by TLC"),
     }
+    if replay_res is not None:
+        coverage["model_to_code_replay"] = {k: v for k, v in replay_res.items() if k != "steps_file"}
+        coverage["transitions"] += replay_res["visible_steps_replayed"]
     level = cfg.get("level", "model_checking")
     if level == "exploration":
         coverage["evaluations"] = lines
         coverage["distinct_nontrivial"] = count_distinct(out, cfg)
-    V.write_evidence(pid, tier, seed, level, coverage, cfg.get("assumptions", []), time.time() - t0, len(new))
-    if new:
+    V.write_evidence(pid, tier, seed, level, coverage, cfg.get("assumptions", []), time.time() - t0, len(new) + replay_viol)
+    if new or replay_viol:
         return 1
     if any(m["violated"] or not m["finished"] for m in models):
         V.log("design model did not pass")
